@@ -57,6 +57,52 @@ theorem groupNode_err_iff (keys : List SExpr) (aggs : List PAgg) (rows : List Ro
     obtain ⟨out, ho, _⟩ := groupNode_sem keys aggs rows h hf
     exact ⟨out, ho⟩
 
+/-! ## what the specification's aggregate values are (the clauses of the property, spelled out) -/
+
+/-- a group without non-NULL input reports NULL — for every aggregate, COUNT included -/
+theorem no_input_is_null (p : PAgg) : aggValue p [] = .null := rfl
+
+/-- COUNT counts the non-NULL inputs; COUNT(DISTINCT) their classes -/
+theorem count_is_length (M : List Value) (hne : M ≠ []) (d : Bool) (e : SExpr) (a : Option (List Nat)) :
+    aggValue ⟨.count, d, e, a⟩ M = .int (if d then (Agg.support M).length else M.length) := by
+  cases M with
+  | nil => exact absurd rfl hne
+  | cons x r => cases d <;> rfl
+
+/-- AVG over Int is the (wrapped) sum divided by the count, truncated toward zero (`Int.tdiv`) -/
+theorem avg_int_truncates (M : List Value) (hne : M ≠ []) (e : SExpr) (a : Option (List Nat)) :
+    aggValue ⟨.avgInt, false, e, a⟩ M =
+      .int (Agg.wrap64 (Int.tdiv (Agg.wrap64 (Agg.sumZ Agg.intField M)) M.length)) := by
+  cases M with
+  | nil => exact absurd rfl hne
+  | cons x r => rfl
+
+example : aggValue ⟨.avgInt, false, .col 0, none⟩ [.int 1, .int (-4)] = .int (-1) := by rfl
+example : aggValue ⟨.avgInt, false, .col 0, none⟩ [.int (-1), .int (-4), .int 0] = .int (-1) := by rfl
+
+/-- array_agg lists the group's non-NULL inputs in ascending `Compare` order, each as often as it occurs -/
+theorem array_agg_ascending (M : List Value) (hne : M ≠ []) (e : SExpr) (a : Option (List Nat)) :
+    ∃ l, aggValue ⟨.array, false, e, a⟩ M = .list l ∧ l.Pairwise (fun x y => cmp x y ≤ 0) ∧
+      ∀ v, Agg.cnt l v = Agg.cnt M v := by
+  cases M with
+  | nil => exact absurd rfl hne
+  | cons x r => exact ⟨Agg.sortSpec (x :: r), rfl, Agg.sortSpec_sorted _, Agg.cnt_sortSpec _⟩
+
+/-- the DISTINCT variants aggregate the support: every class of inputs exactly once -/
+theorem distinct_over_support (k : Agg.Kind) (M : List Value) (hne : M ≠ []) (e : SExpr) (a : Option (List Nat)) :
+    aggValue ⟨k, true, e, a⟩ M = Agg.specOf k (Agg.support M) ∧
+      ∀ v, Agg.cnt (Agg.support M) v = if 0 < Agg.cnt M v then 1 else 0 := by
+  cases M with
+  | nil => exact absurd rfl hne
+  | cons x r => exact ⟨rfl, fun v => Agg.cnt_support _ v⟩
+
+/-- MIN / MAX are least / greatest elements of the inputs -/
+theorem min_max_values (M : List Value) (hne : M ≠ []) (e : SExpr) (a : Option (List Nat)) :
+    aggValue ⟨.min, false, e, a⟩ M = Agg.specMin M ∧ aggValue ⟨.max, false, e, a⟩ M = Agg.specMax M := by
+  cases M with
+  | nil => exact absurd rfl hne
+  | cons x r => exact ⟨rfl, rfl⟩
+
 /-! ## the query -/
 
 /-- side conditions of the soundness theorem (all true of the generated, well-typed queries): the ORDER BY keys of
